@@ -267,7 +267,7 @@ func (w *World) BuildContent(author int, fc FContent) (*aclrecordproto.AclConten
 			ids = append(ids, pubProto(x))
 			removed[string(w.Keys[x].SignKey.GetPublic().Storage())] = true
 		}
-		rk, err := w.buildReadKeyChange(st, removed, fc.Variant%11 == 10)
+		rk, err := w.buildReadKeyChange(st, removed, fc.Variant%11 == 10, fc.Variant%5 == 3)
 		if err != nil {
 			return nil, err
 		}
@@ -275,7 +275,7 @@ func (w *World) BuildContent(author int, fc FContent) (*aclrecordproto.AclConten
 	case "request_remove":
 		return &aclrecordproto.AclContentValue{Value: &aclrecordproto.AclContentValue_AccountRequestRemove{AccountRequestRemove: &aclrecordproto.AclAccountRequestRemove{}}}, nil
 	case "read_key_change":
-		rk, err := w.buildReadKeyChange(st, nil, fc.Variant%11 == 10)
+		rk, err := w.buildReadKeyChange(st, nil, fc.Variant%11 == 10, fc.Variant%5 == 3)
 		if err != nil {
 			return nil, err
 		}
@@ -289,7 +289,16 @@ func (w *World) BuildContent(author int, fc FContent) (*aclrecordproto.AclConten
 // buildReadKeyChange wraps a fresh read key for exactly the accounts that hold a
 // permission (minus removed) and the live open invites — what a fully validating list
 // demands — or, if sloppy, for one account too few.
-func (w *World) buildReadKeyChange(st *list.AclState, removed map[string]bool, sloppy bool) (*aclrecordproto.AclReadKeyChange, error) {
+// altEnc re-encodes an ed25519 public key proto with its default key type written out
+// explicitly (08 00 ...): the same key, a different byte string.
+func altEnc(id []byte) []byte {
+	if len(id) > 0 && id[0] == 0x12 {
+		return append([]byte{0x08, 0x00}, id...)
+	}
+	return id
+}
+
+func (w *World) buildReadKeyChange(st *list.AclState, removed map[string]bool, sloppy bool, alt ...bool) (*aclrecordproto.AclReadKeyChange, error) {
 	newKey := crypto.NewAES()
 	proto, err := newKey.Marshall()
 	if err != nil {
@@ -311,6 +320,9 @@ func (w *World) buildReadKeyChange(st *list.AclState, removed map[string]bool, s
 			continue
 		}
 		id, _ := acc.PubKey.Marshall()
+		if len(alt) > 0 && alt[0] {
+			id = altEnc(id)
+		}
 		enc, err := acc.PubKey.Encrypt(proto)
 		if err != nil {
 			return nil, err
